@@ -3,7 +3,7 @@ interval certificates tie it to persim.persistent_entropy.persistent_entropy."""
 import math
 from fractions import Fraction
 
-from .. import core
+from .. import core, history
 
 PID = "C16"
 THEOREMS = [
@@ -14,7 +14,8 @@ THEOREMS = [
 ]
 RULE = ("seeded generator over classes {single array, list of diagrams, equal lengths, infinite bars "
         "dropped / substituted, keep_inf without value, non-positive bar, scales 1e-6..1e6, integer-dtype arrays, exactly one remaining bar (valid or of non-positive length)} x flag "
-        "combinations; a case is non-trivial when the call succeeds on a diagram with >= 2 finite bars "
+        "combinations, caps of exactly 0 on barcodes born below 0; call histories in one process on shared array objects (cap sweeps over one barcode, barcodes reused "
+        "across lists, rejected calls in between); a case is non-trivial when the call succeeds on a diagram with >= 2 finite bars "
         "of different lengths, or exercises an error / infinite-bar branch; distinct = distinct JSON input")
 TRUSTED_BASE = [
     "Coq 8.16.1 kernel (vm_compute used by the Interval tactic's reflexive checker; no native_compute)",
@@ -22,7 +23,8 @@ TRUSTED_BASE = [
     "FunctionalExtensionality.functional_extensionality_dep, Classical_Prop.classic",
     "coq-interval (per-case certificates) incl. primitive-float/int63 specification axioms of the stdlib",
     "hand-written model Model/EntropyM.v of persistent_entropy.py lines 63-90",
-    "harness: generator, float->exact-rational printer, exception->error-enum mapping",
+    "harness: generator, float->exact-rational printer, exception->error-enum mapping; call histories (harness/history.py) "
+    "are judged by the spec predicate only",
 ]
 ASSUMPTIONS = [
     "numpy semantics of boolean masking, np.where, np.sum, np.log are as modelled",
@@ -92,6 +94,10 @@ def generate(rng, tier):
                 d.insert(rng.randint(0, len(d)), [rng.uniform(-1, 1), "inf"])
             if cls == "inf_subst":
                 keep_inf, val_inf = True, rng.choice([10.0, 7.5, 100.0])
+                if rng.random() < 0.35:
+                    # a cap of exactly 0 (falsy in Python) on a barcode whose infinite bars are born below 0
+                    val_inf = rng.choice([0.0, 0, 0.0])
+                    dgms[0] = [[b - 8.0, (d if d == "inf" else d - 8.0)] for b, d in dgms[0]]
             elif cls == "inf_noval":
                 keep_inf, val_inf = True, None
         if cls == "badbar":
@@ -105,7 +111,7 @@ def generate(rng, tier):
         single = (len(dgms) == 1 and rng.random() < 0.6)
         cases.append({"cls": cls, "dgms": dgms, "single": single, "keep_inf": keep_inf,
                       "val_inf": val_inf, "normalize": normalize, "dtype": dtype})
-    return cases
+    return cases + _histories(rng, 12 if tier == "quick" else 150)
 
 
 def corpus():
@@ -125,24 +131,53 @@ def _f(x):
     return float("inf") if x == "inf" else float(x)
 
 
-def impl_run(cases):
+def impl_call(c, memo):
+    """One call; equal-valued diagrams of different calls are the same ndarray objects (interned in memo)."""
     import numpy as np
     from persim.persistent_entropy import persistent_entropy
-    outs = []
-    for c in cases:
-        dt = {"int64": np.int64, "int32": np.int32}.get(c.get("dtype", "float"), float)
-        arrs = [np.array([[_f(b), _f(d)] for b, d in dg], dtype=float).reshape(-1, 2).astype(dt) for dg in c["dgms"]]
-        arg = arrs[0] if c["single"] else arrs
+    dt = {"int64": np.int64, "int32": np.int32}.get(c.get("dtype", "float"), float)
+    arrs = [history.intern(memo, ["dgm", dg, c.get("dtype", "float")],
+                           lambda dg=dg: np.array([[_f(b), _f(d)] for b, d in dg], dtype=float).reshape(-1, 2).astype(dt))
+            for dg in c["dgms"]]
+    arg = arrs[0] if c["single"] else arrs
+    try:
+        r = persistent_entropy(arg, keep_inf=c["keep_inf"], val_inf=c["val_inf"], normalize=c["normalize"])
+        return {"vals": [float(v) for v in np.asarray(r).ravel()]}
+    except Exception as e:
+        return {"error": type(e).__name__, "msg": str(e)[:200]}
 
-        def call():
-            r = persistent_entropy(arg, keep_inf=c["keep_inf"], val_inf=c["val_inf"], normalize=c["normalize"])
-            return {"vals": [float(v) for v in np.asarray(r).ravel()]}
-        try:
-            outs.append(call())
-        except Exception as e:
-            outs.append({"error": type(e).__name__, "msg": str(e)[:200]})
-    return outs
 
+def impl_run(cases):
+    return [history.run(c, impl_call) if history.is_hist(c) else impl_call(c, {}) for c in cases]
+
+
+def _histories(rng, n):
+    """Call histories on shared diagram objects: parameter sweeps over one barcode with infinite bars (different
+    caps, then dropped), several barcodes reused in different lists, and rejected calls in between."""
+    hs = []
+    for _ in range(n):
+        kind = rng.choice(["sweep", "sweep", "reuse", "fault"])
+        base = _bars(rng, rng.randint(2, 5), 1.0)
+        inf_d = [list(x) for x in base]
+        for _ in range(rng.randint(1, 2)):
+            inf_d.insert(rng.randint(0, len(inf_d)), [rng.uniform(-2, 1), "inf"])
+        other = _bars(rng, rng.randint(2, 4), 1.0)
+        def step(dgms, single, keep, val, norm=False):
+            return {"cls": "step", "dgms": dgms, "single": single, "keep_inf": keep, "val_inf": val, "normalize": norm, "dtype": "float"}
+        caps = rng.sample([10.0, 20.0, 7.5, 100.0, 50.0, 12.0], 3)
+        if kind == "sweep":
+            steps = [step([inf_d], True, True, caps[0]), step([inf_d], True, True, caps[1]), step([inf_d], True, False, None),
+                     step([inf_d], rng.random() < 0.5, True, caps[2], rng.random() < 0.3), step([inf_d], True, True, caps[0])]
+        elif kind == "reuse":
+            steps = [step([inf_d, other], False, True, caps[0]), step([other, inf_d], False, False, None),
+                     step([inf_d], True, True, caps[1]), step([base, inf_d, other], False, True, caps[2]), step([other], True, False, None, True)]
+        else:
+            bad = [list(x) for x in other]
+            j = rng.randrange(len(bad)); bad[j] = [bad[j][1], bad[j][0]]
+            steps = [step([inf_d], True, True, caps[0]), dict(step([inf_d, bad], False, True, caps[1]), fault=True),
+                     dict(step([inf_d], True, True, None), fault=True), step([inf_d], True, True, caps[1]), step([inf_d, other], False, False, None)]
+        hs.append(history.make(kind, steps))
+    return hs
 
 # ---- the spec, evaluated independently of the model ---------------------------------------
 def _spec(c):
@@ -169,6 +204,8 @@ def _spec(c):
 
 
 def predicate(c, o):
+    if history.is_hist(c):
+        return history.predicate(c, o, predicate)
     s = _spec(c)
     if isinstance(s, str):
         if "error" not in o:
@@ -192,6 +229,8 @@ def predicate(c, o):
 
 
 def nontrivial(c, o):
+    if history.is_hist(c):
+        return history.nontrivial(c, o, nontrivial)
     if "error" in o or any(d == "inf" for dg in c["dgms"] for _, d in dg):
         return True
     return any(len({round(float(d) - float(b), 12) for b, d in dg}) >= 2 for dg in c["dgms"])
@@ -239,6 +278,9 @@ def coq_jobs(cases, outs):
 def coq_judge(cases, outs, results):
     lemmas, idx, verdicts = [], [], ["disagree:not-expressible (nan/inf or unknown exception)"] * len(cases)
     for i, (c, o) in enumerate(zip(cases, outs)):
+        if history.is_hist(c):
+            verdicts[i] = "skip:history (every step is judged by the spec predicate)"
+            continue
         st = _stmt(c, o)
         if st is not None:
             idx.append(i)
@@ -250,6 +292,9 @@ def coq_judge(cases, outs, results):
 
 
 def shrink_candidates(c):
+    if history.is_hist(c):
+        yield from history.shrink(c)
+        return
     if len(c["dgms"]) > 1:
         for i in range(len(c["dgms"])):
             d = dict(c); d["dgms"] = c["dgms"][:i] + c["dgms"][i + 1:]; yield d
